@@ -48,6 +48,15 @@ func verifCompress(ext, data string) string {
 	return buf.String()
 }
 
+// verifCompressSplit: like verifCompress, but a gzip stream is written as two concatenated members (RFC 1952
+// section 2.2: "a gzip file consists of a series of members"), the first holding data[:cut].
+func verifCompressSplit(ext, data string, cut int) string {
+	if ext != ".gz" || cut <= 0 || cut >= len(data) {
+		return verifCompress(ext, data)
+	}
+	return verifCompress(ext, data[:cut]) + verifCompress(ext, data[cut:])
+}
+
 var (
 	verifKeyMu   sync.Mutex
 	verifPGPKeys = map[int]*openpgp.Entity{}
@@ -119,8 +128,10 @@ func verifListTar(r *tar.Reader) (string, bool) {
 
 // VerifC14Load: a format-2.0 .deb assembled from a model loads to exactly that model.
 // controlPos: position of ./control inside the control tarball (0 first, 1 after another file, 2 last of three);
-// controlName: "./control" or "control"; extra: an additional ar member before the data member.
-func VerifC14Load(cext, dext string, controlPos int, controlName string, ctl string, expectCtl string, f0name, f0data, f1name, f1data string, extra bool, binary string, pad int) int {
+// controlName: "./control" or "control"; extra: additional ar members - 0 none, 1 one between control and data,
+// 2 one behind the data member (where debsigs appends its signatures), 3 both.
+// split > 0: gzip-compressed tarballs are written as two gzip members, cut after split bytes.
+func VerifC14Load(cext, dext string, controlPos int, controlName string, ctl string, expectCtl string, f0name, f0data, f1name, f1data string, extra int, binary string, pad int, split int) int {
 	cn := []string{"./md5sums", "./postinst"}
 	cc := []string{"aa  usr/x\n" + strings.Repeat("0123456789abcde\n", pad/16), "#!/bin/sh\n"}
 	names, conts := []string{}, []string{}
@@ -132,14 +143,17 @@ func VerifC14Load(cext, dext string, controlPos int, controlName string, ctl str
 			cn, cc = cn[1:], cc[1:]
 		}
 	}
-	ctar := verifCompress(cext, verifTar(names, conts))
-	dtar := verifCompress(dext, verifTar([]string{f0name, f1name}, []string{f0data, f1data}))
+	ctar := verifCompressSplit(cext, verifTar(names, conts), split)
+	dtar := verifCompressSplit(dext, verifTar([]string{f0name, f1name}, []string{f0data, f1data}), split)
 	mn := []string{"debian-binary", "control.tar" + cext}
 	md := []string{binary, ctar}
-	if extra {
+	if extra == 1 || extra == 3 {
 		mn, md = append(mn, "_gpgbuilder"), append(md, "sig")
 	}
 	mn, md = append(mn, "data.tar"+dext), append(md, dtar)
+	if extra == 2 || extra == 3 {
+		mn, md = append(mn, "_gpgorigin"), append(md, "sig2")
+	}
 	archive := verifAr(mn, md)
 	load := func() (*Deb, error) { return Load(bytes.NewReader([]byte(archive)), "x.deb") }
 	d, err := load()
